@@ -326,3 +326,75 @@ def carrier_types(ck, rule):
                 for h in getattr(s, "handlers", []):
                     walk(h.body, chain)
     walk(fm.node.body, [])
+
+
+def no_truncation_before_rounding(ck, rule):
+    """C10.R5 / C01.R7: a value that may be fractional is never cast to an integer value type before the rounding stage.
+    In the normaliser's fixed-point-source branch the codes are re-scaled by 2^(dst.n_frac - src.n_frac); when that exponent may be
+    negative the value type handed to set_val's pre-scale cast must not stay the source's (possibly int) type."""
+    prog = ck.prog
+    from ..paths import enum_paths, walk_path
+    from ..common import infeasible, order_facts, path_literals, mkterm
+    from ..terms import nonneg, Facts, NotATerm
+    fm = A.normaliser(prog)
+    vp = [p for p in fm.params if p != "self"][0]
+    arm = None
+    for n in ast.walk(fm.node):
+        if isinstance(n, ast.If):
+            ts = _isinstance_types(n.test, vp)
+            if ts and "Fxp" in ts:
+                arm = n
+    if arm is None:
+        ck.bad(rule, fm, "the normaliser has a branch for fixed-point inputs", "no isinstance(val, Fxp) arm", fm.node)
+        return
+    n_ok = 0
+    for p in enum_paths(arm.body, prog=prog, func=fm):
+        pf = walk_path(p, prog=prog, func=fm)
+        if infeasible(pf) or pf.end == "raise":
+            continue
+        v = pf.env.get(vp)
+        vd = pf.env.get("vdtype")
+        if v is None:
+            continue
+        # exponent of the power-of-two factor
+        expo = None
+        for n in ast.walk(v):
+            if isinstance(n, ast.BinOp) and isinstance(n.op, ast.Pow) and isinstance(n.left, ast.Constant) and n.left.value in (2, 2.0):
+                expo = n.right
+        if expo is None:
+            continue
+        try:
+            e = mkterm(expo, rename=lambda d: d)
+        except NotATerm:
+            continue
+        # case analysis over false conjunctions / true disjunctions: (A and B) false  =>  not A, or not B
+        case_sets = [[]]
+        for g in pf.guards:
+            t, pol = g[0], g[1]
+            while isinstance(t, ast.UnaryOp) and isinstance(t.op, ast.Not):
+                t, pol = t.operand, not pol
+            if isinstance(t, ast.BoolOp) and ((isinstance(t.op, ast.And) and not pol) or (isinstance(t.op, ast.Or) and pol)) and len(t.values) <= 3:
+                case_sets = [c + [(v, pol, None, None)] for c in case_sets for v in t.values][:16]
+        may_int = False
+        for extra in case_sets:
+            gs = list(pf.guards) + extra
+            ge = order_facts(gs, rename=lambda d: d)
+            if nonneg(e, Facts(ge=ge)):
+                continue          # exponent >= 0 in this case: integer codes stay integers
+            mi = True
+            if vd is not None and dotted(vd) in ("float", "complex", "np.float64", "object"):
+                mi = False
+            for t, pol in path_literals(gs):
+                if isinstance(t, ast.Compare) and len(t.ops) == 1 and dotted(t.comparators[0]) == "int" and vd is not None and same_expr(t.left, vd):
+                    if (isinstance(t.ops[0], ast.Eq) and not pol) or (isinstance(t.ops[0], ast.NotEq) and pol):
+                        mi = False
+            may_int = may_int or mi
+        if not may_int and all(nonneg(e, Facts(ge=order_facts(list(pf.guards) + x, rename=lambda d: d))) for x in case_sets):
+            n_ok += 1
+            continue
+        ck.check(not may_int, rule, fm, "when the re-scaling exponent may be negative (destination has fewer fraction bits) the value keeps a non-integer value type until it is rounded",
+                 "codes re-scaled by 2^(%s) are typed %s" % (e.show(), src(vd) if vd is not None else None), arm,
+                 "set_val casts the re-scaled (fractional) codes with astype(int) before rounding: floor/ceil/around are replaced by truncation and the conversion routes disagree")
+        n_ok += 1
+    if n_ok == 0:
+        ck.unsure(rule, fm, "fixed-point-source branch re-scales codes by a power of two", arm, "no re-scaling found")
